@@ -23,7 +23,10 @@ impl C19 {
 }
 
 const BPPS: [u16; 3] = [16, 32, 15];
-const DATA_KINDS: [&str; 11] = ["raw-exact", "raw-short", "raw-long", "rle-valid", "garbage", "rle-truncated", "raw-rows-without-padding", "rle-run-overruns-a-later-line", "rle-run-overruns-the-first-line", "rle-extreme-values", "rle-ends-after-the-first-scan-line"];
+const DATA_KINDS: [&str; 12] = ["raw-exact", "raw-short", "raw-long", "rle-valid", "garbage", "rle-truncated", "raw-rows-without-padding", "rle-run-overruns-a-later-line", "rle-run-overruns-the-first-line", "rle-extreme-values", "rle-ends-after-the-first-scan-line", "rle-runs-in-the-extended-form"];
+
+/// the data kinds of the small product (the last kind only makes sense for wide images: big cases)
+const SMALL_KINDS: u64 = 11;
 
 #[derive(Debug)]
 struct Case {
@@ -62,21 +65,28 @@ fn big_cases() -> Vec<Case> {
             }
         }
     }
+    // one colour / background / foreground run per scan line spelled in the extended (one extension byte) form: run lengths
+    // 32..287 for the regular orders, 16..271 for the lite ones — every boundary width, painted whole
+    for iw in [32u16, 33, 255, 256, 257, 270, 271, 272, 286, 287] {
+        for win in [(300usize, 260usize), (4, 4)] {
+            v.push(Case { win_w: win.0, win_h: win.1, l: 0, t: 0, r: iw - 1, b: 5, img_w: iw, img_h: 6, bpp: 16, kind: 11 });
+        }
+    }
     v
 }
 
 impl C19 {
     fn n_small(&self) -> u64 {
         let nc = self.coords.len() as u64;
-        self.dims.len() as u64 * nc * nc * nc * nc * 36 * 3 * DATA_KINDS.len() as u64
+        self.dims.len() as u64 * nc * nc * nc * nc * 36 * 3 * SMALL_KINDS
     }
     fn case(&self, mut i: u64) -> Case {
         if i >= self.n_small() {
             return big_cases().swap_remove((i - self.n_small()) as usize);
         }
         let nc = self.coords.len() as u64;
-        let kind = (i % DATA_KINDS.len() as u64) as usize;
-        i /= DATA_KINDS.len() as u64;
+        let kind = (i % SMALL_KINDS) as usize;
+        i /= SMALL_KINDS;
         let bpp = BPPS[(i % 3) as usize];
         i /= 3;
         let img_h = (i % 6) as u16;
@@ -152,6 +162,33 @@ fn make_data(c: &Case) -> (Vec<u8>, bool, Option<Vec<u32>>) {
                     }
                     let same = r.len() == raw.len();
                     (r, false, if same { Some(px) } else { None })
+                }
+                // six scan lines, each ONE order in the extended form: colour run, background run, (set-)foreground run, dithered
+                // run, colour run, background run; the expected image comes from the reference decoder
+                11 => {
+                    if w * h == 0 {
+                        return (vec![], true, Some(px));
+                    }
+                    let run = w as u32;
+                    let mut orders = vec![];
+                    for line in 0..h {
+                        let o = match line % 6 {
+                            0 | 4 => Order { kind: Kind::ColorRun, form: Form::Extended, run, fg: 0, a: 0x1234u16.wrapping_mul(line as u16 + 1), b: 0, masks: vec![], pixels: vec![] },
+                            1 | 5 => Order::simple(Kind::BgRun, Form::Extended, run),
+                            2 => Order { kind: Kind::SetFgRun, form: Form::Extended, run, fg: 0x0F0F, a: 0, b: 0, masks: vec![], pixels: vec![] },
+                            _ => Order { kind: Kind::DitheredRun, form: Form::Extended, run: run / 2, fg: 0, a: 0x00FF, b: 0xFF00, masks: vec![], pixels: vec![] },
+                        };
+                        if !rle::spellable(&o.kind, &o.form, o.run) || (o.kind == Kind::DitheredRun && w % 2 == 1) {
+                            orders.push(Order { kind: Kind::ColorRun, form: Form::MegaMega, run, fg: 0, a: 0x4321, b: 0, masks: vec![], pixels: vec![] });
+                        } else {
+                            orders.push(o);
+                        }
+                    }
+                    let d = rle::emit_all(&orders);
+                    match rle::decode16(&d, w, h) {
+                        rle::Decoded::Image(i) => (d, true, Some(to_px(&rle::image16_to_bgra(&i)))),
+                        _ => (d, true, None),
+                    }
                 }
                 // a background run of 31 pixels after one row of colour pixels / at the very start: longer than the image
                 7 => {
@@ -263,6 +300,15 @@ impl Prop for C19 {
     }
     fn prepare(&mut self, tier: Tier) -> Result<(), String> {
         self.tier = tier;
+        // the first paint of every worker process goes into a large window: whatever the code remembers from its first
+        // call (a size, a stride, a buffer) then differs from what the small windows of the enumeration need
+        {
+            let mut big: Vec<u32> = vec![0x5E5E_5E5E; 300 * 260];
+            let img = image16(64, 64);
+            let _ = blit(&mut big, 300, BitmapEvent { dest_left: 10, dest_top: 10, dest_right: 73, dest_bottom: 73, width: 64, height: 64, bpp: 16, is_compress: false, data: rle::raw16(&img, 64, 64) });
+            let bgra = image32(64, 64);
+            let _ = blit(&mut big, 300, BitmapEvent { dest_left: 0, dest_top: 0, dest_right: 63, dest_bottom: 63, width: 64, height: 64, bpp: 32, is_compress: true, data: rle::planar_encode_with(&bgra, 64, 64, |_, _, line| rle::strategy_segs(line, 0)) });
+        }
         self.coords = if tier == Tier::Quick { vec![0, 1, 2, 3, 4, 5, 65535] } else { vec![0, 1, 2, 3, 4, 5, 6, 32768, 65535] };
         self.dims = vec![];
         let m = if tier == Tier::Quick { 3 } else { 4 };
@@ -281,7 +327,7 @@ impl Prop for C19 {
         json!({"idx": idx, "window": [c.win_w, c.win_h], "rect": {"left": c.l, "top": c.t, "right": c.r, "bottom": c.b}, "image": [c.img_w, c.img_h], "bpp": c.bpp, "data": DATA_KINDS[c.kind]})
     }
     fn rule(&self) -> String {
-        "cases = (window WxH in 1..3 squared (1..4 in thorough), rectangle left/top/right/bottom each in {0..5, 65535} ({0..6, 32768, 65535} in thorough) (inside, outside, inverted), image width/height each in 0..5, depth in {16,32,15}, data in {raw exact, raw one byte short, raw 4 bytes long, valid RLE, garbage, RLE truncated, raw rows without their 4-byte padding (16 bpp) / half the rows (32 bpp), compressed streams whose run overruns the first / a later scan line, streams made of the extreme values of the encodings (planar deltas of -128 on every later line, mega-mega runs of 0 and 65535 pixels), an interleaved stream that ends after its first scan line}) — the full product; plus images of 2^14..2^17 pixels (256x256, 255x257, 300x250, 512x128, 181x362, 65535x1, 1x65535, 32768x2, 2x32768, 128x256, 64x64) at 16 and 32 bpp as raw exact / raw short / valid RLE / truncated RLE / unpadded rows, painted whole into a 300x260 window, at offset (1,1), clipped by a 4x4 and by a 520x2 window. Executed on the unmodified fast_bitmap_transfer under a red-zone allocator. Oracle: no panic; canary zones of every heap block intact; when the call succeeds for a rectangle inside the window with a known image, the buffer equals the reference blit (rows top..bottom, columns left..right from image rows 0.., columns 0..) and every other cell keeps its sentinel; when the call fails the buffer may hold a prefix of the rows but never a foreign value; for data whose decoded image the harness does not know (garbage, truncated or overrunning streams) the paint is repeated with fresh heap blocks pre-filled with 0xA5 and with 0x3C: both windows and results must be equal (the window never shows memory the decoder did not write). Non-trivial: the call reached the copy loop (decompression succeeded).".into()
+        "cases = (window WxH in 1..3 squared (1..4 in thorough), rectangle left/top/right/bottom each in {0..5, 65535} ({0..6, 32768, 65535} in thorough) (inside, outside, inverted), image width/height each in 0..5, depth in {16,32,15}, data in {raw exact, raw one byte short, raw 4 bytes long, valid RLE, garbage, RLE truncated, raw rows without their 4-byte padding (16 bpp) / half the rows (32 bpp), compressed streams whose run overruns the first / a later scan line, streams made of the extreme values of the encodings (planar deltas of -128 on every later line, mega-mega runs of 0 and 65535 pixels), an interleaved stream that ends after its first scan line}) — the full product; plus images of 2^14..2^17 pixels (256x256, 255x257, 300x250, 512x128, 181x362, 65535x1, 1x65535, 32768x2, 2x32768, 128x256, 64x64) at 16 and 32 bpp as raw exact / raw short / valid RLE / truncated RLE / unpadded rows, painted whole into a 300x260 window, at offset (1,1), clipped by a 4x4 and by a 520x2 window; plus 16 bpp images 32..287 pixels wide whose six scan lines are one extended-form order each (colour, background, set-foreground, dithered runs of the boundary lengths 32, 33, 255..257, 270..272, 286, 287). Executed on the unmodified fast_bitmap_transfer under a red-zone allocator; every worker process first paints two 64x64 images into a 300x260 window, so that anything remembered from a first call differs from what the enumeration needs. Oracle: no panic; canary zones of every heap block intact; when the call succeeds for a rectangle inside the window with a known image, the buffer equals the reference blit (rows top..bottom, columns left..right from image rows 0.., columns 0..) and every other cell keeps its sentinel; when the call fails the buffer may hold a prefix of the rows but never a foreign value; for data whose decoded image the harness does not know (garbage, truncated or overrunning streams) the paint is repeated with fresh heap blocks pre-filled with 0xA5 and with 0x3C, each time right after a one-colour image of the same size in another colour: both windows and results must be equal (the window never shows memory the decoder did not write), and equal again when two other images were painted in the same thread just before (nothing of an earlier image shows). Non-trivial: the call reached the copy loop (decompression succeeded).".into()
     }
     fn assumptions(&self) -> Vec<String> {
         vec![
@@ -347,6 +393,14 @@ impl Prop for C19 {
         // wrote — the same paint under two different fillings of fresh heap blocks gives the same window
         let mut runs: Vec<(bool, Vec<u32>)> = vec![];
         for poison in [0xA5u8, 0x3C] {
+            // (a one-colour compressed 16 bpp image of the same size is painted first, in another colour each time: whatever a
+            // decoder keeps between two images differs between the two runs)
+            {
+                let (w2, h2) = (c.img_w.max(1), c.img_h.max(1));
+                let mut big: Vec<u32> = vec![SENT; 64 * 64];
+                let one = BitmapEvent { dest_left: 0, dest_top: 0, dest_right: w2.min(64) - 1, dest_bottom: h2.min(64) - 1, width: w2, height: h2, bpp: 16, is_compress: true, data: rle::emit_all(&[Order { kind: Kind::ColorRun, form: Form::MegaMega, run: (w2 as u32 * h2 as u32).min(65535), fg: 0, a: if poison == 0xA5 { 0x1234 } else { 0x8410 }, b: 0, masks: vec![], pixels: vec![] }]) };
+                let _ = blit(&mut big, 64, one);
+            }
             let (data, compress, _) = make_data(&c);
             let mut b2: Vec<u32> = vec![SENT; c.win_w * c.win_h];
             let ev = BitmapEvent { dest_left: c.l, dest_top: c.t, dest_right: c.r, dest_bottom: c.b, width: c.img_w, height: c.img_h, bpp: c.bpp, is_compress: compress, data };
@@ -354,6 +408,27 @@ impl Prop for C19 {
             let r2 = blit(&mut b2, c.win_w, ev);
             redzone::POISON.store(0, Relaxed);
             runs.push((r2.is_ok(), b2));
+        }
+        // ... and whatever was painted before: the same paint after two other images (an all-white compressed 16 bpp one
+        // and a patterned 32 bpp one of the same size, into a larger window) gives the same window again
+        {
+            let (w2, h2) = (c.img_w.max(1), c.img_h.max(1));
+            let mut big: Vec<u32> = vec![SENT; 64 * 64];
+            let white = BitmapEvent { dest_left: 0, dest_top: 0, dest_right: w2.min(64) - 1, dest_bottom: h2.min(64) - 1, width: w2, height: h2, bpp: 16, is_compress: true, data: rle::emit_all(&[Order { kind: Kind::ColorRun, form: Form::MegaMega, run: (w2 as u32 * h2 as u32).min(65535), fg: 0, a: 0xFFFF, b: 0, masks: vec![], pixels: vec![] }]) };
+            let _ = blit(&mut big, 64, white);
+            let bgra = image32(w2 as usize, h2 as usize);
+            let patterned = BitmapEvent { dest_left: 0, dest_top: 0, dest_right: w2.min(64) - 1, dest_bottom: h2.min(64) - 1, width: w2, height: h2, bpp: 32, is_compress: true, data: rle::planar_encode_with(&bgra, w2 as usize, h2 as usize, |_, _, line| rle::strategy_segs(line, 0)) };
+            let _ = blit(&mut big, 64, patterned);
+            let (data, compress, _) = make_data(&c);
+            let mut b3: Vec<u32> = vec![SENT; c.win_w * c.win_h];
+            let ev = BitmapEvent { dest_left: c.l, dest_top: c.t, dest_right: c.r, dest_bottom: c.b, width: c.img_w, height: c.img_h, bpp: c.bpp, is_compress: compress, data };
+            redzone::POISON.store(0xA5, Relaxed);
+            let r3 = blit(&mut b3, c.win_w, ev);
+            redzone::POISON.store(0, Relaxed);
+            if (r3.is_ok(), &b3) != (runs[0].0, &runs[0].1) {
+                let at = b3.iter().zip(runs[0].1.iter()).position(|(a, b)| a != b);
+                return Outcome::fail("mismatch", "window-depends-on-what-was-painted-before", format!("the same paint gives another window (first difference at cell {:?}) or result ({} / {}) after two other images were painted in the same thread; {:?}", at, runs[0].0, r3.is_ok(), c));
+            }
         }
         if runs[0] != runs[1] {
             let at = runs[0].1.iter().zip(runs[1].1.iter()).position(|(a, b)| a != b);
